@@ -4,7 +4,8 @@ C04, interleaving layer: a small-step model of two keepstore goroutines working 
 
   P : a TOUCH request (UnixVolume.Touch) or a PUT request (handlePUT → PutBlock →
       CompareAndTouch [Compare = stat + getFunc(lock, open, read), Touch] → on any failure
-      NextWritable().Put = WriteBlock)
+      NextWritable().Put = WriteBlock, which since fix 7e105eb opens the file it is about to
+      replace and takes its flock before the rename)
   T : a DELETE request (handleDELETE → UnixVolume.Trash) or one trash-list item
       (TrashItem = Mtime, then Trash)
 
@@ -29,9 +30,6 @@ structure Cfg where
   ageOld : Bool     -- the pre-existing copy's mtime is at least BlobSigningTTL in the past
   pop : POp
   top : TOp
-  /-- WriteBlock takes the flock of the file it is about to replace (/verif/fixes/F4.patch); `false`
-  is the code as it stands -/
-  patched : Bool := false
 deriving DecidableEq, Repr
 
 inductive Ino | a | b deriving DecidableEq, Repr
@@ -172,13 +170,12 @@ def stepP (s0 : St) : St :=
     if s.mutexFree then { s.takeMutex .p with pcP := .wCopy } else s.blockP
   | .wCopy => { s with pcP := .wClose }         -- io.Copy
   | .wClose => { s with pcP := .wChtimes }      -- tmpfile.Close
-  | .wChtimes =>                                -- os.Chtimes(tmp)
-    if s.cfg.patched then { s with pcP := .wOpenOld } else { s with pcP := .wRename }
-  | .wOpenOld =>                                -- (patched) v.os.OpenFile(bpath): the file about to be replaced
+  | .wChtimes => { s with pcP := .wOpenOld }    -- os.Chtimes(tmp)
+  | .wOpenOld =>                                -- v.os.OpenFile(bpath): the file about to be replaced, if any (fix 7e105eb)
     match s.blk with
     | some i => { s with pcP := .wFlockOld, fdP := some i }
     | none => { s with pcP := .wRename }
-  | .wFlockOld =>                               -- (patched) v.lockfile(oldf)
+  | .wFlockOld =>                               -- v.lockfile(oldf): the flock Touch and Trash use
     match s.fdP with
     | some i => if (s.flock i).isNone then { s.setFlock i (some .p) with pcP := .wRename } else s.blockP
     | none => { s with pcP := .wRename }
